@@ -192,14 +192,36 @@ func (x *Exec) resolveName(name string, pos token.Pos) types.Object {
 		sc := pkg.Scope().Innermost(pos)
 		if sc != nil {
 			if _, obj := sc.LookupParent(name, pos); obj != nil {
-				// a universe object (builtin max, min, len …) must not shadow a variable of that name that was merely renamed
-				if obj.Parent() == types.Universe {
+				// a universe or package-level object (builtin max, a function called like the local …) must not shadow a
+				// variable of that name that was merely renamed
+				if obj.Parent() == types.Universe || obj.Parent() == pkg.Scope() {
 					if r := x.g.renameMap(x.fi)[name]; r != nil {
 						x.c.notes["contract name "+name+" in "+x.fi.Key+" resolved to the renamed variable "+r.Name()+" (same declaration position and type as when the lock was written)"] = true
 						return r
 					}
 				}
 				return obj
+			}
+		}
+	}
+	// the name may be the former name of a variable declared several times in the function (loop counters): look for a
+	// variable visible at pos whose recorded former name it is, innermost scope first
+	if pos.IsValid() {
+		if on := x.g.oldNames(x.fi); on != nil {
+			for sc := pkg.Scope().Innermost(pos); sc != nil && sc != pkg.Scope(); sc = sc.Parent() {
+				var best types.Object
+				for _, nm := range sc.Names() {
+					o := sc.Lookup(nm)
+					if o != nil && on[o] == name && o.Name() != name && o.Pos() <= pos {
+						if best == nil || o.Pos() > best.Pos() {
+							best = o
+						}
+					}
+				}
+				if best != nil {
+					x.c.notes["contract name "+name+" in "+x.fi.Key+" resolved to the renamed variable "+best.Name()+" (same declaration position and type as when the lock was written)"] = true
+					return best
+				}
 			}
 		}
 	}
